@@ -1588,7 +1588,7 @@ func runUnschedCase(in unschedIn) (out unschedOut) {
 		time.Sleep(time.Second)
 	}
 	// past the schedule window (counted from the first report), with a margin
-	time.Sleep(status.ScheduleWindow + 1500*time.Millisecond - time.Second)
+	time.Sleep(status.ScheduleWindow + 3*time.Second - time.Second)
 	if obj, err := tracker.Get(kPod.gvr(), "ns1", "a"); err == nil {
 		if u, ok := obj.(*unstructured.Unstructured); ok {
 			out.Final = libStatus(u)
